@@ -226,6 +226,7 @@ mutual
 def holdsB (tbl : ClassTable) (ρ : Env) : BCond → Obj → Bool
   | .leaf c, o => holds tbl c o
   | .other c, _ => holds tbl c ρ.other
+  | .capture c, o => holds tbl c o
   | .opaque i, _ => ρ.bits.getD i false
   | .not b, o => !holdsB tbl ρ b o
   | .and bs, o => holdsAll tbl ρ bs o
@@ -242,6 +243,7 @@ mutual
 def condOkB (tbl : ClassTable) (ρ : Env) : BCond → Obj → Bool
   | .leaf c, o => condOk tbl c o
   | .other c, _ => condOk tbl c ρ.other
+  | .capture c, o => condOk tbl c o
   | .opaque _, _ => true
   | .not b, o => condOkB tbl ρ b o
   | .and bs, o => condOkL tbl ρ bs o
@@ -256,6 +258,7 @@ mutual
 def BCond.leaves : BCond → List Cond
   | .leaf c => [c]
   | .other _ => []
+  | .capture _ => []
   | .opaque _ => []
   | .not b => b.leaves
   | .and bs => BCond.leavesL bs
@@ -429,6 +432,21 @@ def dSteps (tbl : ClassTable) (T : BoolTable) (tst : Ty) (o : Obj) : List K → 
 def dMatch (tbl : ClassTable) (T : BoolTable) (v : Ty) (ps : List Pat) (i : Nat) (o : Obj) : List String :=
   (dSteps tbl T (.union (Pat.testedL ps)) o (caseKs T ps i) (flatten1 v)).eraseDups
 
+/-- does the case take the object in state `ρ`: the pattern matches and the guard is true -/
+def MCase.takes (tbl : ClassTable) (ρ : Env) (c : MCase) (o : Obj) : Bool :=
+  c.pat.matches tbl o && (match c.guard with | some g => holdsB tbl ρ g o | none => true)
+
+/-- index of the case whose body runs in state `ρ` (`cs.length`: none) -/
+def gfirstMatch (tbl : ClassTable) (ρ : Env) : List MCase → Obj → Nat
+  | [], _ => 0
+  | c :: cs, o => if c.takes tbl ρ o then 0 else gfirstMatch tbl ρ cs o + 1
+
+def gcasesOk (tbl : ClassTable) (ρ : Env) (cs : List MCase) (o : Obj) : Bool :=
+  cs.all fun c => c.pat.ok tbl o && (match c.guard with | some g => condOkB tbl ρ g o | none => true)
+
+def dGMatch (tbl : ClassTable) (T : BoolTable) (v : Ty) (cs : List MCase) (i : Nat) (o : Obj) : List String :=
+  (dSteps tbl T (.union (Pat.testedL (cs.map MCase.pat))) o (gcaseKs T cs i) (flatten1 v)).eraseDups
+
 /-- the literals of singleton patterns -/
 def singles : List Obj := [.none, .bool true, .bool false]
 
@@ -447,6 +465,21 @@ def singlePats : List Pat → Bool
   | .singleton l :: ps => singles.any (fun s => objDeq l s) && singlePats ps
   | .wildcard :: ps => singlePats ps
   | _ :: _ => false
+
+/-- the patterns of the statement are singleton patterns and wildcards (guards are arbitrary) -/
+def gsinglePats (cs : List MCase) : Bool := singlePats (cs.map MCase.pat)
+
+mutual
+/-- every `and` / `or` has at least one operand (as in Python source) -/
+def BCond.wfB : BCond → Bool
+  | .not b => b.wfB
+  | .and bs => !bs.isEmpty && BCond.wfBL bs
+  | .or bs => !bs.isEmpty && BCond.wfBL bs
+  | _ => true
+def BCond.wfBL : List BCond → Bool
+  | [] => true
+  | b :: bs => b.wfB && BCond.wfBL bs
+end
 
 /-! the abstract constraint contains no `PredicateProvider` (whose inverse is the null constraint) -/
 mutual
